@@ -12,9 +12,9 @@ import vlib, txnlib, _txncfg
 
 META = dict(
     property_id="C20", engine="TxnStore",
-    technique="TLA+ API-level transaction spec (TxnStore; cache perturbations are stuttering) + TLC trace validation of multi-process histories (processes with private L1 caches sharing a RESP-served L2 with virtual-clock TTLs; standalone process with in-memory L2), with flushes, evictions and expiries between steps",
+    technique="TLA+ cache-protocol spec (CacheCoherence: registry version, shared L2, per-process L1 handle cache and node MRU, pre-commit fast path) model-checked by TLC, its shortest stale-read behaviour replayed on real OS processes; TLA+ API-level transaction spec (TxnStore; cache perturbations are stuttering) + TLC trace validation of multi-process histories (processes with private L1 caches sharing a RESP-served L2 with virtual-clock TTLs; standalone process with in-memory L2), with flushes, evictions and expiries between steps",
     level="model_checking",
-    level_text="Every read of every process in every history must equal the specified committed state (TLC rejects the trace at the first stale read); histories: 1 process (standalone) and 2-3 processes (clustered), 6 keys, all value placements, random cache perturbations, small L1 capacities.",
+    level_text="Design level: TLC proves ReadsLatest for one process and for 2 processes without the L1 fast path (exhaustive, versions <= 3-4, 1-2 nodes) and emits the shortest stale-read behaviour with the fast path, which is replayed on two real processes. Conformance: every read of every process in every history must equal the specified committed state (TLC rejects the trace at the first stale read); histories: 1 process (standalone) and 2-3 processes (clustered), 6 keys, all value placements, random cache perturbations, small L1 capacities.",
     level_note="The Redis side is a RESP2 server written for this harness (harness/lib/resp: SET NX/PX, GET, GETEX, MGET, DEL, EXPIRE..., virtual clock); sequential steps (one process acts at a time), so every stale read is a cache effect, not a race.",
     design_ref="C20",
 )
